@@ -820,6 +820,14 @@ func (e *kvElection) StopWithContext(ctx context.Context, opts StopOptions) erro
 		var err error
 		if rd, ok := e.kv.(RevisionDeleter); ok {
 			err = rd.DeleteRevision(e.key, e.revision.Load())
+			if err != nil {
+				// A refresh that was in flight when the stop began may have
+				// been applied without its revision being recorded here: the
+				// record is then still this instance's, under a newer revision.
+				if rev, own := e.ownRecordRevision(); own {
+					err = rd.DeleteRevision(e.key, rev)
+				}
+			}
 		} else {
 			err = e.kv.Delete(e.key)
 		}
@@ -883,6 +891,24 @@ func (e *kvElection) StopWithContext(ctx context.Context, opts StopOptions) erro
 	}
 
 	return nil
+}
+
+// ownRecordRevision reads the record and reports its revision if it still
+// carries this instance's id and the token of its last term.
+func (e *kvElection) ownRecordRevision() (uint64, bool) {
+	token := e.Token()
+	entry, err := e.kv.Get(e.key)
+	if err != nil || entry == nil {
+		return 0, false
+	}
+	var payload leadershipPayload
+	if err := json.Unmarshal(entry.Value(), &payload); err != nil {
+		return 0, false
+	}
+	if token == "" || payload.ID != e.cfg.InstanceID || payload.Token != token {
+		return 0, false
+	}
+	return entry.Revision(), true
 }
 
 // stopWaitOver ends the wait of a stop call that gave up on it.
